@@ -80,12 +80,12 @@ READER = by("mappyfile.transformer.MapfileTransformer.", "mappyfile.parser.Parse
 
 PLANS = {
  "C01": dict(level="other", pred=by(PP + "format_value", "mappyfile.quoter.", "lemma:Lemma", TR + "attr", TR + "string", TR + "int", TR + "float", TR + "true", TR + "false",
-                                    TR + "hexcolor", TR + "clean_string", TR + "expression", PP + "_format", PP + "process_attribute"),
+                                    TR + "hexcolor", TR + "clean_string", TR + "expression", PP + "_format", PP + "process_attribute", PP + "get_attribute_properties"),
              b=["b_roundtrip", "b_numbers"], canaries=["free_string_bare", "enum_not_upper", "hexcolor_case"],
              explanation="component contracts (printer refines spec.render per slot; reader callbacks refine the text-to-dict contract; quoting round-trip lemmas) are PROVED; that Lark's contextual lexer tokenises the printed text as intended is NOT expressible as a contract over repository code and is covered by the bounded seam loads(dumps(loads(t))) over the corpus and the complete slot vocabulary"),
  "C02": dict(level="proof", pred=READER, b=["b_text_to_dict", "b_numbers"], canaries=["singleton_plural", "key_not_lowered", "hexcolor_case"],
              explanation="every transformer callback verified against the documented text-to-dict contract for the argument shapes larkshape derives from the compiled grammar; the block fold (composite) for one arbitrary item and an arbitrary accumulator; Lark's tree construction assumed and validated by the bounded text-to-dict seam"),
- "C04": dict(level="proof", pred=by(PP + "format_value", "mappyfile.quoter.", "lemma:Lemma", TR + "expression", TR + "comparison", TR + "and_test", TR + "or_test", TR + "not_expression", PP + "pprint", PP + "_format", PP + "process_dict", PP + "process_key_dict", PP + "process_config_dict", PP + "process_repeated_list", PP + "process_projection", PP + "process_attribute"),
+ "C04": dict(level="proof", pred=by(PP + "format_value", "mappyfile.quoter.", "lemma:Lemma", TR + "expression", TR + "comparison", TR + "and_test", TR + "or_test", TR + "not_expression", PP + "pprint", PP + "_format", PP + "process_dict", PP + "process_key_dict", PP + "process_config_dict", PP + "process_repeated_list", PP + "process_projection", PP + "process_attribute", PP + "get_attribute_properties"),
              e=["c12_tables"], b=["b_idempotent", "b_escape_idempotent", "b_numbers"], canaries=["enum_not_upper", "expr_never_wraps"],
              explanation="printer-side clauses (normal-form value text per slot, no parentheses piled up on re-parsing, determinism by purity: no time/random/id/hash, no module state) proved; idempotence of escape_quotes (replace chains: both solvers give up) and the lexer seam are bounded"),
  "C05": dict(level="other", pred=by(TR + "key_name", TR + "clean_string", TR + "attr", TR + "composite_type", "mappyfile.parser.Parser.parse", "mappyfile.quoter.Quoter.remove_quotes", "lemma:LemmaRoundTrip", TR + "process_value_pairs", TR + "config"),
